@@ -576,11 +576,21 @@ func runC14(c *Ctx) {
 		}
 		var wg sync.WaitGroup
 		var mu sync.Mutex
+		// every 8th pod: a freshly constructed evaluator whose very first evaluations (of this version) happen at once
+		cev := ev
+		if i%8 == 0 {
+			if cev, err = policy.NewEvaluator(policy.DefaultChecks()); err != nil {
+				panic(err)
+			}
+			c.Tag("c14.freshEvaluatorConcurrentFirstUse")
+		}
+		start := make(chan struct{})
 		for g := 0; g < 16; g++ {
 			wg.Add(1)
 			go func() {
 				defer wg.Done()
-				again := ev.EvaluatePod(lv, &p.ObjectMeta, &p.Spec)
+				<-start
+				again := cev.EvaluatePod(lv, &p.ObjectMeta, &p.Spec)
 				if !reflect.DeepEqual(first, again) {
 					mu.Lock()
 					if ok {
@@ -591,8 +601,15 @@ func runC14(c *Ctx) {
 				}
 			}()
 		}
+		close(start)
 		wg.Wait()
 		c.Eval(16)
+		if i%8 == 0 { // and what the evaluator says afterwards, once the burst is over
+			if after := cev.EvaluatePod(lv, &p.ObjectMeta, &p.Spec); !reflect.DeepEqual(first, after) && ok {
+				ok = false
+				c.Violate(Finding{Desc: "an evaluator whose first evaluations ran concurrently answers differently from one used sequentially", Key: "nondeterministic-concurrent", Input: J{"level": lvl, "minor": m, "pod": cp}, Go: J{"sequential": first, "afterBurst": after}})
+			}
+		}
 		if !reflect.DeepEqual(p, cp) {
 			c.Violate(Finding{Desc: "evaluation modified the pod", Key: "mutated", Input: J{"level": lvl, "minor": m, "pod": cp}, Go: p})
 		}
